@@ -22,7 +22,7 @@ use serde::{Deserialize, Serialize};
 use serde_json::{Value, json};
 use std::collections::{BTreeMap, BTreeSet, HashMap, HashSet};
 
-pub const NAMES: [&str; 9] = ["A1", "A2", "A3", "A4", "J", "R", "Rlow", "Cdep", "Dsp"];
+pub const NAMES: [&str; 10] = ["A1", "A2", "A3", "A4", "J", "R", "Rlow", "Cdep", "Dsp", "R2"];
 
 pub const DIAMOND: [&str; 8] = ["A1", "B", "C", "D", "E", "F", "R", "Rc"];
 
@@ -59,7 +59,11 @@ impl PoolUniverse {
             let dsp = simple_tx(cons, &g[3..4], 1, 700_000, 9);
             // the join: one parent inside the A family, one outside it
             let j = simple_tx(cons, &[out(&a1, 1), out(&cdep, 0)], 1, 900_000, 5);
-            for (n, t) in NAMES.iter().zip([a1, a2, a3, a4, j, r, rlow, cdep, dsp]) {
+            // a replacement of two transactions that are independent of each other (A1 through G0,
+            // Cdep through G2): it pays more than either of them plus the increment, and less than
+            // both together
+            let r2 = simple_tx(cons, &[g[0].clone(), g[2].clone()], 1, 1_500_000, 10);
+            for (n, t) in NAMES.iter().zip([a1, a2, a3, a4, j, r, rlow, cdep, dsp, r2]) {
                 txs.insert(*n, t);
             }
             PoolUniverse { variant, names: NAMES.to_vec(), txs }
@@ -271,6 +275,8 @@ impl Driver {
     /// to genesis and the pool and block assembler are reset with the genesis snapshot.  The
     /// clock is never moved backwards, so re-mined blocks differ from the detached ones.
     pub fn reset(&mut self) -> Result<(), String> {
+        // whatever the last history left on its way through the verify queue arrives first
+        self.node.wait_pool_synced()?;
         let genesis = self.cons.genesis_hash();
         if self.node.tip().hash() != genesis {
             self.node.chain().truncate(genesis).map_err(|e| format!("truncate: {e}"))?;
@@ -320,7 +326,11 @@ impl Driver {
         match op {
             Op::Submit(i) => {
                 let tx = self.u.txs[self.u.names[i]].clone();
-                match pool.submit_local_tx(tx).map_err(|e| e.to_string())? {
+                let r = pool.submit_local_tx(tx).map_err(|e| e.to_string())?;
+                // a successful replacement sets transactions free that were refused as its victims'
+                // conflicts: they travel back through the verify queue on a task of their own
+                self.node.wait_pool_synced()?;
+                match r {
                     Ok(_) => Ok("accepted".into()),
                     Err(e) => Ok(format!("rejected: {}", e.to_string().split('(').next().unwrap_or("").trim())),
                 }
@@ -462,6 +472,7 @@ fn race_family(ctx: &Ctx, cons: &Consensus, report: &mut Report, only: Option<&V
                             }
                             let verdict = handle.join().map_err(|_| "submit thread panicked".to_string())??;
                             ckb_tx_pool::verif::set_gate(None);
+                            drv.node.wait_pool_synced()?;
                             report.transitions += 2;
                             if !reached {
                                 report.count("race_gate_not_reached", 1);
@@ -583,7 +594,7 @@ fn replay_history(ctx: &Ctx, cons: &Consensus, rbf: bool, variant: u8, hist: &[O
                         }
                     }
                 } else if canon(&pre, &drv.u, 0).1 != canon(&post, &drv.u, 0).1 {
-                    report.violation("rbf/rejected-replacement-changed-pool", format!("replacement {} was {obs} but the pool changed", drv.u.names[*i]), label.clone());
+                    report.violation("rbf/rejected-replacement-changed-pool", format!("replacement {} was {obs} but the pool changed: before {:?}, after {:?}", drv.u.names[*i], canon(&pre, &drv.u, 0).1, canon(&post, &drv.u, 0).1), label.clone());
                 }
             }
         }
